@@ -47,7 +47,7 @@ def run(names, checks_override, repo):
             out = {}
             for c in checks:
                 t0 = time.time()
-                p = sh(f'/verif/bin/vcheck {c} quick', timeout=1500)
+                p = sh(os.environ.get('VERIF_SNAPSHOT', '/verif') + f'/bin/vcheck {c} quick', timeout=3000)
                 sigs = [l.strip() for l in p.stdout.splitlines() if l.strip().startswith('signature:')]
                 out[c] = {'exit': p.returncode, 'violation': 'VIOLATION property=' in p.stdout, 'signatures': sigs[:4], 'wall_s': round(time.time() - t0, 1)}
             results[n] = out
